@@ -266,7 +266,9 @@ pub fn main(args: &Args) -> ! {
             }
         }
         let n = tasks.len();
-        let (res, capped) = explore::e3(tasks, dl, |(i, c)| c17::run_case(base, c, &cfgs[*i], None));
+        // (a deadline of its own: a loaded machine must not leave this part unexplored)
+        let dl0 = deadline(if thorough { 300 } else { 25 });
+        let (res, capped) = explore::e3(tasks, dl0, |(i, c)| c17::run_case(base, c, &cfgs[*i], None));
         rep.exhaustive &= !capped;
         for ((_, c), r) in &res {
             rep.evaluations += 1;
